@@ -17,7 +17,9 @@ EXPLANATION = (
     "the live assertions the value the solver reported (R8).  Verdict table: sat / unsat / unknown / anything "
     "else, for solve and is_sat (R6).  Values of 21 symbols (bit-vectors of widths 3 - 16 with every position of the hexadecimal "
     "digit b, rationals of both signs, negative integers) reported in four notations - z3's (#x.., (/ 1.0 3.0)), cvc5's (#b.., (/ (- 1) 3)), "
-    "indexed literals (_ bvN w), plain - come back from get_value and get_model as the reported values (R9).")
+    "indexed literals (_ bvN w), plain - come back from get_value and get_model as the reported values (R9).  Created with each option of the base class "
+    "(random_seed, generate_models, incremental, solver_options) against a process that - like z3 - is silent until :print-success is set, the "
+    "constructor returns, every option command reaches the process, and assert / solve / get_value work (R10).")
 NOT_DECIDED = ["API sequences longer than the bound (3 calls in the quick tier, 4 in the thorough tier)",
                "the factory shortcuts of pysmt/factory.py beyond Solver.is_sat (they construct real solver processes)"]
 
@@ -58,6 +60,18 @@ def run(ctx):
                 if nm not in bad:
                     rs.ok({"notation": dn, "symbol": nm, "value": str(sd.VALUE_MODEL[nm])})
         ctx.floor(rs, 60)
+
+    if ctx.want("R10"):
+        rs = ctx.rule("R10", "solver options: created with each option the base class accepts, against a solver process that is silent until "
+                             ":print-success is set, the constructor returns, every option reaches the process and the solver works")
+        for tag, kind, problems in sd.text_options_results(repo):
+            if kind != "ok":
+                rs.unrec("%s: %s" % (tag, problems))
+            elif problems:
+                ctx.finding(rs, "options|%s" % tag, "SmtLibSolver created with [%s]: %s" % (tag, problems[0]), "pysmt/smtlib/solver.py")
+            else:
+                rs.ok({"options": tag})
+        ctx.floor(rs, 6)
 
     if ctx.want("R6"):
         rs = ctx.rule("R6", "verdict table: sat / unsat / unknown / other, for solve and is_sat")
